@@ -14,7 +14,7 @@ import (
 // modules". A generated single-file program (functions with loops, slices, strings, multi-returns, multi-assignments)
 // is split: a call-closed set of functions that touch no global moves into an imported file (public names, reached
 // through the alias); the reference semantics of the ORIGINAL program decide the output of the split program.
-var c09SplitCfg = gen.Cfg{MaxStmts: 22, MaxDepth: 3, ExprDepth: 3, Funcs: true, MaxFuncs: 5, Slices: true, StrOps: true, LoopBudget: 10, DumpGlobal: true, ErrSpell: true, BigSlices: true}
+var c09SplitCfg = gen.Cfg{MaxStmts: 22, MaxDepth: 3, ExprDepth: 3, Funcs: true, MaxFuncs: 5, Slices: true, StrOps: true, LoopBudget: 10, DumpGlobal: true, ErrSpell: true, BigSlices: true, CmdNeutral: true}
 
 func c09Split(t *rapid.T, r *rep.R) bool {
 	stmts, _ := gen.Stmts(t, c09SplitCfg)
@@ -135,6 +135,19 @@ func c09Split(t *rapid.T, r *rep.R) bool {
 	c := execCase{Kind: "bash-run", Property: "C09", Files: srcs, Main: "main.tsh", ExpectStdout: ref.Stdout, ExpectStatus: ref.Status}
 	out := runExecCase(c)
 	if out.OK {
+		// the Batch script of the same split program under the cmd.exe model (32-bit domain only)
+		if ref.MaxAbs <= 2147483647 && !ref.Overflow {
+			bc := batchCase{Kind: "batch-model-run", Property: "C09", Files: srcs, Main: "main.tsh", ExpectStdout: ref.Stdout, ExpectStatus: ref.Status, RefSteps: ref.Steps + 1}
+			kind, msg, _ := runBatchCase(bc)
+			switch {
+			case strings.HasPrefix(kind, "inconclusive"):
+				r.Inconclusive("split-batch:" + strings.SplitN(strings.TrimPrefix(kind, "inconclusive:"), ":", 3)[0])
+			case kind != "":
+				r.FailCase(t, rep.Sig{"kind": kind, "shape": "split", "backend": "batch"}, msg+"\n--- sources\n"+all, bc)
+			default:
+				r.Class("split:batch-model-agrees")
+			}
+		}
 		return true
 	}
 	sig := rep.Sig{"kind": out.Kind, "shape": "split"}
